@@ -17,6 +17,7 @@ import (
 	sdk "github.com/cosmos/cosmos-sdk/types"
 	distrtypes "github.com/cosmos/cosmos-sdk/x/distribution/types"
 	ammtypes "github.com/elys-network/elys/x/amm/types"
+	sstypes "github.com/elys-network/elys/x/stablestake/types"
 )
 
 type shockLeaf struct {
@@ -201,6 +202,18 @@ func (h *Hist) govPoolShock() (string, *histTx) {
 	}
 	return what, &histTx{kind: "amm.exit", f: J{"pool": p.Id, "shareIn": sh.String(), "outDenom": "", "afterPoolShock": true, "signer": holder.Addr.String(), "fee": [][]string{}},
 		req: TxReq{Signer: holder, Msgs: []sdk.Msg{&ammtypes.MsgExitPool{Sender: holder.Addr.String(), PoolId: p.Id, MinAmountsOut: sdk.Coins{}, ShareAmountIn: sh}}}}
+}
+
+// govVaultShock: governance re-sends the lending vault's parameters with another epoch length (the number of blocks between two
+// adjustments of the interest rate; the default is 1) - everything else as it stands.
+func (h *Hist) govVaultShock() string {
+	var p sstypes.Params
+	h.w.Seed(func(ctx sdk.Context) { p = h.w.App.StablestakeKeeper.GetParams(ctx) })
+	p.EpochLength = []int64{1, 2, 5, 10, 30}[h.r.Intn(5)]
+	if h.govApplyRecorded(&sstypes.MsgUpdateParams{Authority: h.w.Gov, Params: &p}) {
+		return fmt.Sprintf("stablestake.EpochLength=%d", p.EpochLength)
+	}
+	return ""
 }
 
 // govShock applies one mutated governance message; "" when nothing was applied (validation or the handler refused it).
